@@ -314,8 +314,33 @@ def hSrsworProb : Handler := fun c => do
     ("binom", natJ (binomialCoefficient t t g)),
     ("support_times_prob", ratJ ((n : Rat) * srsworProb o t g))])
 
+/-- `c19.imh_support`: a density that vanishes on part of the proposal's support.
+{ratios:[rat|null ..] (null = -inf), f:[..], burn_in, init: idx (inside the support), draws:[idx..],
+lus:[rat|null..]} -> for the repaired and the pinned book-keeping: chain states, recorded values, estimate. -/
+def hIMHSupport : Handler := fun c => do
+  let ratios ← getList jsonToOptRat c "ratios"
+  let fs ← getRatList c "f"
+  let burn ← getNat c "burn_in"
+  let init ← getNat c "init"
+  let draws ← getNatList c "draws"
+  let lus ← getList jsonToOptRat c "lus"
+  let ratio : Nat → Option Rat := fun i => (ratios.getD i none)
+  match ratio init with
+  | none => throw "init outside the density's support"
+  | some r0 =>
+    if lus.length < draws.length then throw "fewer uniforms than draws" else
+    if draws.length ≤ burn then throw "burn_in >= mc_samples" else
+    let steps := draws.zip (lus.take draws.length)
+    let one := fun (poison : Bool) =>
+      let chain := imhChainS poison ratio init (.fin r0) steps
+      let rec_ := imhRecordedS poison ratio (fun i => fs.getD i 0) burn init r0 steps
+      objJ [("chain", listJ natJ chain), ("recorded", listJ ratJ rec_),
+        ("v", ratJ (rec_.foldr (· + ·) 0 / ((draws.length - burn : Nat) : Rat)))]
+    pure (objJ [("fixed", one false), ("pinned", one true)])
+
 def handlers : List (String × Handler) := [
   ("c19.direct", hDirect), ("c19.is", hIS), ("c19.enumerate", hEnumerate), ("c19.imh", hIMH),
+  ("c19.imh_support", hIMHSupport),
   ("c19.relax", hRelax), ("c19.srswor", hSrswor), ("c19.binom", hBinom),
   ("c19.enum_vocab", hEnumVocab), ("c19.enum_card", hEnumCard),
   ("c19.enum_card_tensor", hEnumCardTensor), ("c19.bern", hBern), ("c19.gumbel", hGumbel),
